@@ -99,7 +99,7 @@ pub fn corpus(include_long: bool) -> Vec<Conv> {
     v.push(conv("pipeline-deferred", cat(&[&get("/1"), &post_cl("/2", b"xy"), &get("/3")]),
         AppProgram { plans: vec![ReqPlan::simple()], recv: RecvStyle::Recv, deferred: true, thread_per_request: false }, true));
     v.push(conv("chunked-response", get("/big"),
-        AppProgram::uniform(ReqPlan { read: ReadPlan::None, finish: Finish::Respond(RespSpec { status: 200, body_len: 300, declared: false, threshold: None }) }), false));
+        AppProgram::uniform(ReqPlan { read: ReadPlan::None, finish: Finish::Respond(RespSpec { status: 200, body_len: 300, declared: false, threshold: None, headers: 0 }) }), false));
     v.push(conv("incomplete-head", b"GET /inc HTTP/1.1\r\nHost: t\r\nX-Half".to_vec(), ra(), true));
     v.push(conv("incomplete-small-body", b"POST /inc HTTP/1.1\r\nContent-Length: 10\r\n\r\nabc".to_vec(), ra(), true));
     if include_long {
@@ -111,6 +111,26 @@ pub fn corpus(include_long: bool) -> Vec<Conv> {
             AppProgram { plans: vec![ReqPlan { read: ReadPlan::part(100, 1500), finish: Finish::Respond(RespSpec::ok(5)) }, ReqPlan::simple()], recv: RecvStyle::Recv, deferred: false, thread_per_request: false }, false));
         v.push(conv("long-chunked-2100", cat(&[&post_chunked("/l", &payload(2100), &[1000, 1024, 76]), &get("/n")]), ra(), false));
         v.push(conv("long-head-1100", cat(&[format!("GET /lh HTTP/1.1\r\nX-Long: {}\r\n\r\n", "v".repeat(1100)).as_bytes(), &get("/n")]), ra(), false));
+        // alignments with the 1024-byte read buffer: the CR that ends a header line, and the
+        // blank line that ends the head, at every offset around a refill boundary; what
+        // follows (a small body, another request) shows whether the reader stayed in step
+        for boundary in [1024usize, 2048] {
+            for shift in 0..5usize {
+                // the CR of the X-Pad line at offset boundary - 3 + shift
+                let pre = "POST /al HTTP/1.1\r\nHost: t\r\nContent-Length: 4\r\nX-Pad: ";
+                let want_cr_at = boundary - 3 + shift;
+                let pad = want_cr_at - pre.len();
+                let mut b = format!("{}{}\r\nX-Next: v\r\n\r\nbody", pre, "p".repeat(pad)).into_bytes();
+                b.extend_from_slice(&get("/n"));
+                v.push(conv(if boundary == 1024 { ["align1024-cr-3", "align1024-cr-2", "align1024-cr-1", "align1024-cr+0", "align1024-cr+1"][shift] } else { ["align2048-cr-3", "align2048-cr-2", "align2048-cr-1", "align2048-cr+0", "align2048-cr+1"][shift] }, b, ra(), false));
+                // the blank line (CR LF CR LF) starting at offset boundary - 3 + shift
+                let pre = "GET /ab HTTP/1.1\r\nHost: t\r\nX-Pad: ";
+                let pad = want_cr_at - pre.len();
+                let mut b = format!("{}{}\r\n\r\n", pre, "q".repeat(pad)).into_bytes();
+                b.extend_from_slice(&post_cl("/n", b"xy"));
+                v.push(conv(if boundary == 1024 { ["align1024-end-3", "align1024-end-2", "align1024-end-1", "align1024-end+0", "align1024-end+1"][shift] } else { ["align2048-end-3", "align2048-end-2", "align2048-end-1", "align2048-end+0", "align2048-end+1"][shift] }, b, ra(), false));
+            }
+        }
     }
     v
 }
